@@ -2,6 +2,7 @@ package props
 
 import (
 	"go/token"
+	"go/types"
 	"sort"
 	"strings"
 
@@ -92,7 +93,7 @@ func checkSupervisorExec(c *report.Ctx) {
 						return false
 					}
 					a, k := u.X.(*ssa.Alloc)
-					return k && a.Comment == "err"
+					return k && len(start) == 1 && holdsValueOf(a, start[0].Value())
 				})
 		})
 	}
@@ -157,12 +158,22 @@ func checkSupervisorExec(c *report.Ctx) {
 	c.Check("R-ORDER", gname+"/wait-close-send", "the watcher waits for the process, then closes its termination channel (so kill observes the exit), then emits the event", okOrd, fpos(g), 3, "%v", okOrd)
 	// status derivation
 	gf := an.NewFacts(g)
+	// the status cell: the watcher's only int32 local (exit code or signal number, handed out by address)
 	var cell *ssa.Alloc
+	ncell := 0
 	an.AllInstrs(g, func(in ssa.Instruction) {
-		if a, k := in.(*ssa.Alloc); k && a.Comment == "cell" {
-			cell = a
+		if a, k := in.(*ssa.Alloc); k {
+			if pt, isP := a.Type().Underlying().(*types.Pointer); isP {
+				if bt, isB := pt.Elem().Underlying().(*types.Basic); isB && bt.Kind() == types.Int32 {
+					cell = a
+					ncell++
+				}
+			}
 		}
 	})
+	if ncell != 1 {
+		cell = nil
+	}
 	if cell == nil {
 		c.Unresolved("ANCHOR", gname+"/cell", "status cell not found")
 		return
@@ -515,3 +526,16 @@ func checkProcessMap(c *report.Ctx) {
 }
 
 var _ = report.Discharged
+
+// holdsValueOf: cell a is a local into which v (a call's result) is stored, e.g. an error captured by a closure.
+func holdsValueOf(a *ssa.Alloc, v ssa.Value) bool {
+	if v == nil {
+		return false
+	}
+	for _, ref := range *a.Referrers() {
+		if st, ok := ref.(*ssa.Store); ok && st.Addr == ssa.Value(a) && an.Strip(st.Val, false) == v {
+			return true
+		}
+	}
+	return false
+}
